@@ -381,13 +381,33 @@ func coveringSeg(segs []SegInfo, off int64) int {
 
 func tryAPIDamage(c *DmgAPICase, st *Stats, m *Model, opts klevdb.Options, files map[string][]byte, segs []SegInfo, work string, calls []apiCall, pristine []apiResult, d apiDamage) {
 	restoreDir(work, files)
-	_ = os.WriteFile(filepath.Join(work, segs[d.seg].Name+".log"), d.data, 0600)
+	path := filepath.Join(work, segs[d.seg].Name+".log")
+	// a quarter of the in-place overwrites hit the file while a handle is open that has already read (and verified)
+	// every record once: "overwritten in place after it was written" does not wait for a Close
+	live := d.overwrite && len(d.data) == len(files[segs[d.seg].Name+".log"]) && (len(d.desc)+d.seg)%4 == 1
+	if !live {
+		_ = os.WriteFile(path, d.data, 0600)
+	}
 	l, err := klevdb.Open(work, opts)
 	if err != nil {
 		st.Inc("open_failed")
 		return
 	}
 	defer l.Close()
+	if live {
+		for _, cl := range calls {
+			cl.run(l)
+		}
+		f, err := os.OpenFile(path, os.O_WRONLY, 0)
+		if err != nil {
+			panic(err)
+		}
+		if _, err := f.WriteAt(d.data, 0); err != nil {
+			panic(err)
+		}
+		_ = f.Close()
+		st.Inc("overwrites_applied_under_an_open_handle_that_had_read_everything")
+	}
 	role := "nonhead"
 	if d.seg == len(segs)-1 {
 		role = "head"
